@@ -215,6 +215,8 @@ class MultiTerm(qcore.Query):
         if len(qs) == 1:
             # If there's only one term, just use it
             m = qs[0].matcher(searcher, context)
+            if not constantscore and self.boost != 1.0:
+                m = matching.WrappingMatcher(m, self.boost)
         else:
             if constantscore:
                 # To tell the sub-query that score doesn't matter, set weighting
